@@ -2077,6 +2077,12 @@ func (db *DB) CommitJournal(ctx context.Context, mode JournalMode) (err error) {
 	if ok, err := db.isJournalHeaderValid(); err != nil {
 		return err
 	} else if !ok {
+		// A database that has neither a transaction nor a page forgets the page
+		// size its rolled back first transaction announced in the journal header:
+		// the next attempt may choose another one.
+		if fi, err := db.os.Stat("COMMITJOURNAL:DB", db.DatabasePath()); db.Pos().TXID == 0 && (os.IsNotExist(err) || (err == nil && fi.Size() == 0)) {
+			db.pageSize = 0
+		}
 		return db.invalidateJournal(mode) // rollback
 	}
 
